@@ -30,6 +30,7 @@ REGISTRY = {
     "C17": ("nixmc.props.c17", {}),
     "C07": ("nixmc.props.textspace", {}),
     "C20": ("nixmc.props.c20", {}),
+    "C02": ("nixmc.props.c02", {}),
 }
 
 
